@@ -129,7 +129,7 @@ void prop(DP &dp, const ref::Bytes &sched, Ctx &ctx) {
 		Recipe r;
 		if (k > 0 && dp.chance(90)) { r = recipes[dp.pick((unsigned) recipes.size())]; repeated = true; }
 		else {
-			r.mode = (int) dp.weighted({8, 2, 3, 4});
+			r.mode = (int) dp.weighted({16, 4, 6, 8, 1, 1});
 			static const unsigned FL[] = {0, 0, 5, 50};
 			r.flush = FL[dp.pick(4)];
 			r.capacity = dp.chance(70) ? dp.range(65, 255) : 64;
@@ -141,7 +141,7 @@ void prop(DP &dp, const ref::Bytes &sched, Ctx &ctx) {
 			if (recipes[j].mode == r.mode && recipes[j].flush == r.flush && recipes[j].capacity == r.capacity && recipes[j].script == r.script && recipes[j].fault_cls == r.fault_cls) { same_as = (int) j; break; }
 		recipes.push_back(r);
 		flushes.insert(r.flush);
-		static const char *MN[] = {"normal", "normal/silent-interface", "normal/faulty-config", "debug"};
+		static const char *MN[] = {"normal", "normal/silent-interface", "normal/faulty-config", "debug", "serial/no-such-device", "serial/device-that-never-answers"};
 		ctx.desc << " session " << k << ": " << MN[r.mode] << " flush=" << r.flush << "ms capacity=" << r.capacity << (same_as >= 0 ? " (repeats session " + std::to_string(same_as) + ")" : "") << "\n";
 		if (dp.chance(50)) { ctx.desc << "  stop while stopped\n"; quiet_call("bidib_stop while stopped", [] { bidib_stop(); return 0; }, -1); }
 
@@ -162,6 +162,20 @@ void prop(DP &dp, const ref::Bytes &sched, Ctx &ctx) {
 			for (int q = 0; q < cfg::N_FAULT_CLASSES && f.cls.empty(); q++) f = cfg::inject_fault(n.c, (r.fault_cls + q) % cfg::N_FAULT_CLASSES, sp);
 			if (f.cls.empty()) rc = s.start_normal("boards: 5\n", n.c.track_yaml(), n.c.train_yaml(), r.flush);
 			else rc = s.start_normal(f.board, f.track, f.train, r.flush);
+		} else if (r.mode >= 4) {
+			// bidib_start_serial on something that is no BiDiB interface: a path that does not exist, or a device that takes every
+			// byte and never answers (/dev/null). The start must fail cleanly like any other failed start.
+			vf_clear_files();
+			std::string fb = n.c.board_yaml(), ft = n.c.track_yaml(), fr = n.c.train_yaml();
+			vf_set_file("/vf/cfg/bidib_board_config.yml", fb.c_str(), fb.size());
+			vf_set_file("/vf/cfg/bidib_track_config.yml", ft.c_str(), ft.size());
+			vf_set_file("/vf/cfg/bidib_train_config.yml", fr.c_str(), fr.size());
+			bidib_set_lowlevel_debug_mode(false);
+			rc = bidib_start_serial(r.mode == 4 ? "/nonexistent/ttyBiDiB0" : "/dev/null", "/vf/cfg", r.flush);
+			s.running = rc == 0;
+			ctx.tag(r.mode == 4 ? "serial-start:no-such-device" : "serial-start:device-never-answers");
+			if (s.down.size() != mark_start)
+				ctx.fail("SERIAL: a start on a serial device wrote " + std::to_string(s.down.size() - mark_start) + " bytes to the write callback of an earlier session: " + hex(s.since(mark_start)));
 		} else rc = n.start(r.flush);
 		int want = (r.mode == 0 || r.mode == 3) ? 0 : 1;
 		if (rc != want) ctx.fail("START: session " + std::to_string(k) + " (" + MN[r.mode] + ") returned " + std::to_string(rc) + ", expected " + std::to_string(want));
